@@ -18,6 +18,8 @@ pub fn generate(tier: &str, rng: &mut Rng) -> Vec<Spec> {
             v.push(Spec::new(k).with("xs", join_rats(&xs)));
         }
     }
+    // more than 8192 samples through the sum sink (running outputs and the final result only)
+    v.push(Spec::new("sumlong").with("xs", join_rats(&(1..=10_000).map(|k| Rat::int((k * 7) % 23 - 11 + (k % 2))).collect::<Vec<Rat>>())));
     v
 }
 
@@ -35,6 +37,12 @@ fn drive<S: Clone, R>(mut s: S, xs: &[Rat], mut step: impl FnMut(&mut S, Rat) ->
 
 pub fn exec(s: &Spec, stats: &mut Stats) -> Outcome {
     let xs = s.rats("xs"); stats.bump(format!("kind:{}", s.kind)); stats.bump(format!("len:{}", xs.len()));
+    if s.kind == "sumlong" {
+        let mut f = Integrate::<Rat>::default(); let mut run = vec![]; let mut panic = false;
+        for x in &xs { match catch(|| f.filter(*x)) { Ok(y) => run.push(tup(&[y])), Err(_) => { panic = true; break } } }
+        let fin = catch(|| f.finalize()).ok().flatten();
+        return Outcome::Case(format!("mk 9%nat {} [{}] [{}] {}", cqlist(&xs), run.join(";"), copt(&fin.map(|v| vec![v]), |t| tup(t)), cbool(panic)));
+    }
     let k = KINDS.iter().position(|k| *k == s.kind).unwrap();
     let (run, fins, panic) = match k {
         0 => drive(Min::<Rat>::default(), &xs, |s, x| vec![s.filter(x)], |s| s.finalize(), |r| vec![r]),
